@@ -215,6 +215,7 @@ fn client_strategy(i: usize) -> impl Strategy<Value = ClientSpec> {
             6 => Just(0u8),
             3 => Just(1u8),
             1 => Just(2u8),
+            2 => Just(3u8),
         ],
         proptest::collection::vec(any::<u8>(), 0..7),
         any::<u16>(),
@@ -229,10 +230,16 @@ fn client_strategy(i: usize) -> impl Strategy<Value = ClientSpec> {
                     v.extend(idbytes);
                     Some(v)
                 }
-                _ => {
+                2 => {
                     // the hardware address of some (possibly other) client: same identity as that
                     // client if it sends no client-id of its own
                     Some(vec![2u8, 0, 0, 0, 0, (other % 6) as u8])
+                }
+                _ => {
+                    // the usual form on Ethernet: hardware type 1 followed by a hardware address,
+                    // its own or another client's.  A different identifier than the bare address:
+                    // a different client.
+                    Some(vec![1u8, 2, 0, 0, 0, 0, (other % 6) as u8])
                 }
             };
             ClientSpec {
